@@ -41,7 +41,7 @@ TraceInit == Init /\ l = 1 /\ cxl = {} /\ pendw = [k \in Keys |-> "none"] /\ ava
 
 TReset == /\ Is("RESET") /\ Step
           /\ sver' = [k \in Keys |-> 0] /\ tracked' = {} /\ sendq' = <<>> /\ wire' = <<>>
-          /\ pst' = [p \in Pipes |-> "up"] /\ cur' = 1 /\ dead' = {} /\ live' = TRUE
+          /\ pst' = [p \in Pipes |-> "up"] /\ cur' = 1 /\ dead' = {} /\ live' = TRUE /\ lazy' = {}
           /\ ent' = [p \in Pipes |-> [id \in Ids |-> 0]] /\ fl' = [f \in 1..MaxF |-> FreeRec]
           /\ invv' = [p \in Pipes |-> [k \in Keys |-> 0]]
           /\ pc' = [c \in Callers |-> "idle"] /\ op' = [c \in Callers |-> NoOp] /\ pos' = [c \in Callers |-> 0]
@@ -88,6 +88,8 @@ TCancelGo == Is("CancelGo") /\ Step /\ KeepT /\ UNCHANGED vars
 TUnit == /\ Is("SUnit") /\ Step /\ KeepT
          /\ sendq # <<>> /\ Head(sendq).ids = Ev.ids /\ Ev.p = cur
          /\ (Ev.ok => Ev.vers = [j \in 1..Len(Ev.ids) |-> sver[KeyOf(Ev.ids[j])]])
+         \* Redis 6: the pushes the server wrote into the array of this reply (keys, in wire order)
+         /\ Ev.emb = EmbOf(Head(sendq), ~Ev.ok, lazy)
          /\ ServerExecF(~Ev.ok)
 
 \* a write by another client is reported by two events of the same dispatch, in either order
@@ -110,8 +112,20 @@ TInvKey == /\ Is("SInv") /\ ~Ev.all /\ Len(Ev.keys) = 1 /\ Step /\ UNCHANGED <<c
 TInvAll == /\ Is("SInv") /\ Ev.all /\ Step /\ KeepT /\ Ev.p = cur
            /\ pst[cur] = "up" /\ live
            /\ wire' = Append(wire, InvFrame(Keys, [k \in Keys |-> sver[k] + 1]))
-           /\ tracked' = {}
+           /\ tracked' = {} /\ lazy' = {}
            /\ UNCHANGED <<sver, sendq, pst, cur, dead, live, storv, callv, budgv, hist, flags>>
+\* Redis 6 transcription (redis/redis#8935), see LazyWrite / ExecFrame in CacheProto.tla.  What the (scripted) server
+\* does on the wire:   EXEC reply of MULTI, PTTL k, cmd k   with k owed an invalidation:
+\*       *2  >2 invalidate [k]  :pttl        <- the announced two elements: the push took the place of an element
+\*       $value                               <- the real last element follows as a top-level message
+\* (MGET transaction with two such keys:  *3 >inv[a] :pttl_a >inv[b]  |  :pttl_b  |  *2 $va $vb).  pipe._backgroundRead
+\* (branch ver == 6) hands every embedded push to handlePush -- store.Delete + OnInvalidations, in array order --,
+\* shifts the real elements down and reads one follow-up message per stripped push, then treats the patched array
+\* like any EXEC reply (store.Update ...).  In the specification the broken array and its tail are ONE frame
+\* (RepFrame.emb = the embedded keys in wire order); the reader step on it applies Delete for every embedded key first,
+\* then Update.  Trace events: SLazy (the key changed without a push: LazyWrite), SUnit.emb (the keys the server
+\* embedded, checked against EmbOf), one InvCb per embedded push after the silent reader step (unconf, in order).
+TLazy == /\ Is("SLazy") /\ Step /\ KeepT /\ Ev.k \in Keys /\ Ev.ver = sver[Ev.k] + 1 /\ LazyWrite(Ev.k)
 \* the server executed CLIENT TRACKING ON on the connection of a new wire
 TDial == /\ Is("SDial") /\ Step /\ KeepT /\ Ev.p = cur /\ Dial
 \* OPTOUT: an uncached read on the data connection (its keys are remembered as well)
@@ -149,14 +163,15 @@ Silent == /\ UNCHANGED <<l, cxl, pendw>>
                                          \/ WaitAll(c) \/ AsmErr(c)
                                          \/ (c \in cxl /\ CtxCancel(c))
                    \/ MuxSwap
-             \/ (wire # <<>> /\ wire[1].t = "rep" /\ CanRead /\ Reader /\ Took /\ UNCHANGED unconf)
+             \/ (wire # <<>> /\ wire[1].t = "rep" /\ CanRead /\ Reader /\ Took
+                 /\ unconf' = unconf \o [n \in 1..Len(wire[1].emb) |-> [p |-> cur, keys |-> {wire[1].emb[n]}, close |-> FALSE]])
              \/ (wire # <<>> /\ wire[1].t = "inv" /\ CanRead /\ Reader /\ Took
                  /\ unconf' = Append(unconf, [p |-> cur, keys |-> wire[1].keys, close |-> FALSE]))
              \/ \E p \in Pipes : CloseStore(p) /\ UNCHANGED avail
                                   /\ unconf' = Append(unconf, [p |-> p, keys |-> {}, close |-> TRUE])
 
 TraceNext == \/ TReset \/ TCall \/ TRet \/ TCtxB \/ TCtxE \/ TExpire \/ TCancelGo
-             \/ TUnit \/ TWrite \/ TInvKey \/ TInvAll \/ TCut \/ TDial \/ TPlain \/ TInvCb \/ THold \/ TUnhold \/ TRel \/ TSync
+             \/ TUnit \/ TLazy \/ TWrite \/ TInvKey \/ TInvAll \/ TCut \/ TDial \/ TPlain \/ TInvCb \/ THold \/ TUnhold \/ TRel \/ TSync
              \/ Silent
 
 TraceSpec == TraceInit /\ [][TraceNext]_tvars
